@@ -282,6 +282,7 @@ var ruleHTMLOrder = &core.Rule{ID: "R12.4", Min: 3,
 	Doc: "HTML sniffer: the BOM lookup on the unmodified input comes first and its non-empty result is returned; the meta prescan runs only after it; a utf-16* label from a meta maps to utf-8; the pragma decision after the attribute loop equals the WHATWG table (charset attribute: accept; content attribute: accept iff http-equiv=content-type was seen; none: skip)",
 	Run: func(c *core.Ctx, s *core.Sink) {
 		cm := getCharset(c)
+		cm.needBOM()
 		f := cm.html
 		if f == nil {
 			core.Bail("no HTML sniffer registered")
